@@ -20,7 +20,7 @@ MCTxDiff == << D([s11 |-> 1, n1 |-> 1]),
                D([s11 |-> 2, s12 |-> 1]),
                D([s11 |-> 3, h1 |-> 2, n1 |-> 2]),
                D([h2 |-> 1, s21 |-> 1]),
-               D([s12 |-> 2]) >>
+               D([s12 |-> 0]) >>     \* a zero write: found-in-diff must win over the base value
 MCTxDecl == << {}, {"k1"}, {}, {}, {"k2"} >>
 MCClassIds == {"A", "k1", "k2"}
 MCCanonClasses == {"A"}
